@@ -29,7 +29,8 @@
      reaches levels whose spacing overflows float64)
      36 Ticks(o') after Nice on the same object = the model's Ticks on the OBSERVED niced domain
      37 second Nice(o) = the model's Nice on the observed niced domain (every Max)
-     40 idempotent (Max >= 3)   41 first/last major tick after Nice are the new ends (Max >= 3)
+     40 idempotent (Max >= 3)   41 first/last major tick after Nice are the new ends (Max >= 3,
+        Nice found a level and both candidate ends of that level are finite float64 values)
      43 Map(new Min) = 0, Map(new Max) = 1
      45 Nice added at most one major tick spacing at each end (Max >= 3; spacing = distance /
         ratio of the first two and of the last two observed major ticks after Nice) *)
@@ -193,7 +194,7 @@ Definition lin_ticks_adm (o : tickopts) (base eb : Z) (mn mx : Q) (tolv : Q -> Q
                   match minor with
                   | Some mi => ((L =? lo)%Z || (o_max o <? Z.of_nat (length mi))%Z) &&
                                lin_at_adm base eb mn mx tolv (L - 1) None mi
-                  | None => true
+                  | None => (L =? lo)%Z || (o_max o <? lin_cnt_max base eb mn mx false (L - 1))%Z
                   end) (zrange (c - 3) 7)
        || (match major, minor with [], None => true | [], Some [] => true | _, _ => false end &&
            lin_none_adm o base eb mn mx false hi r))
@@ -212,8 +213,8 @@ Definition lin_nice_adm (o : tickopts) (base eb : Z) (smn smx : Q) (tolv : Q -> 
                   existsb (fun f => existsb (fun la =>
                      (la - f + 1 <=? o_max o)%Z &&
                      let nmn := inject_Z f * sp in let nmx := inject_Z la * sp in
-                     let x := if Qleb nmn smn then nmn else smn in
-                     let y := if Qleb smx nmx then nmx else smx in
+                     let x := if f64_fin nmn && Qleb nmn smn then nmn else smn in
+                     let y := if f64_fin nmx && Qleb smx nmx then nmx else smx in
                      within (tolv x) x a && within (tolv y) y b) La) F) (zrange (c - 3) 7)
        || (within (tolv smn) smn a && within (tolv smx) smx b && lin_none_adm o base eb smn smx true hi rn))
   end.
@@ -247,8 +248,19 @@ Definition lin_nice_from (base eb : Z) (smn smx : Q) (rn : flres) : Q * Q :=
       let sp := lin_spacing base eb l in
       let '(f, la) := lin_first_last smn smx sp true in
       let nmn := inject_Z f * sp in let nmx := inject_Z la * sp in
-      (if Qleb nmn smn then nmn else smn, if Qleb smx nmx then nmx else smx)
+      (if f64_fin nmn && Qleb nmn smn then nmn else smn, if f64_fin nmx && Qleb smx nmx then nmx else smx)
   | _ => (smn, smx)
+  end.
+
+(* both candidate ends of the level Nice chose are finite float64 values (at a level whose spacing
+   overflows float64 only the multiple 0 is): only then can the laws "first and last major tick
+   are the new ends" / "at most one spacing added" be demanded *)
+Definition lin_nice_rep_b (base eb : Z) (smn smx : Q) (rn : flres) : bool :=
+  match rn with
+  | FL_ok l => let sp := lin_spacing base eb l in
+               let '(f, la) := lin_first_last smn smx sp true in
+               f64_fin (inject_Z f * sp) && f64_fin (inject_Z la * sp)
+  | _ => false
   end.
 
 Definition ticks_exact (t : ticks_res) (st : Z) (tolv : Q -> Q) (major : list xreal) (minor : option (list xreal)) : bool :=
@@ -309,6 +321,7 @@ Definition judge_linear (c : sccase) : list Z :=
       let '(x, y) := lin_nice_from base eb na nb rn in
       let changed := negb (Qeqb x na && Qeqb y nb) in
       let found := match rn with FL_ok _ => true | _ => false end in
+      let rep := lin_nice_rep_b base eb na nb rn in
       let tag0 := Z.lor (match r with FL_ok _ => 1 | _ => 0 end)
                  (Z.lor (if reversed then 2 else 0)
                  (Z.lor (if degenerate then 4 else 0)
@@ -343,13 +356,13 @@ Definition judge_linear (c : sccase) : list Z :=
           let bl := (1 <=? g30)%Z || (1 <=? g36)%Z || (1 <=? g37)%Z in
           let g40 := law ((nomax <? 3)%Z ||
                           ((so_nst2 ob =? 0)%Z && xwithin (tolv ao) (XFin ao) (so_nmin2 ob) && xwithin (tolv bo) (XFin bo) (so_nmax2 ob))) bl in
-          let g41 := law ((nomax <? 3)%Z || negb found ||
+          let g41 := law ((nomax <? 3)%Z || negb rep ||
                           match first_last (so_major3 ob) with
                           | Some (f, l) => xwithin (tolv ao) (XFin ao) f && xwithin (tolv bo) (XFin bo) l
                           | None => false
                           end) bl in
           let g43 := law (Qeqb ao bo || (xwithin e12 (XFin 0) (so_map0 ob) && xwithin e12 (XFin 1) (so_map1 ob))) false in
-          let g45 := law ((nomax <? 3)%Z || negb found ||
+          let g45 := law ((nomax <? 3)%Z || negb rep ||
                           match first_two (so_major3 ob), last_two (so_major3 ob) with
                           | Some (t0, t1), Some (u0, u1) =>
                               Qleb (na - ao) (t1 - t0 + tolv ao) && Qleb (bo - nb) (u1 - u0 + tolv bo)
@@ -439,8 +452,8 @@ Definition log_nice_from (b : Z) (mn mx : Q) (e : logexp) (neg : bool) (emin ema
       let '(f, la) := log_first_last e true l in
       let k := (2 ^ l)%Z in
       let nmn := qpow b (f * k) in let nmx := qpow b (la * k) in
-      let nemin := if f64_pos_ok nmn && Qleb nmn emin then nmn else emin in
-      let nemax := if f64_pos_ok nmx && Qleb emax nmx then nmx else emax in
+      let nemin := if log_end_ok b k f nmn && Qleb nmn emin then nmn else emin in
+      let nemax := if log_end_ok b k la nmx && Qleb emax nmx then nmx else emax in
       if neg then (- nemax, - nemin) else (nemin, nemax)
   | _ => (mn, mx)
   end.
@@ -462,6 +475,14 @@ Definition log_level_adm1 (b : Z) (neg : bool) (emin emax : Q) (tolv : Q -> Q) (
   (lv_st lv =? 0)%Z && (lv_count lv =? log_count e' false l)%Z &&
   ((l <? 0)%Z || (lv_count lv =? Z.of_nat (length (lv_ticks lv)))%Z) &&
   close_list_opt tolv (log_at_opt b e' neg emin emax false l) (lv_ticks lv).
+
+Definition log_nice_rep_b (b : Z) (e : logexp) (rn : flres) : bool :=
+  match rn with
+  | FL_ok l => let '(f, la) := log_first_last e true l in
+               let k := (2 ^ l)%Z in
+               log_end_ok b k f (qpow b (f * k)) && log_end_ok b k la (qpow b (la * k))
+  | _ => false
+  end.
 
 (* a Log scale as NewLog returns it: base >= 2, Min <= Max, non-zero ends of one sign *)
 Definition log_pre (base : Z) (mn mx : Q) : bool := (2 <=? base)%Z && Qleb mn mx && Qltb 0 (mn * mx).
@@ -493,6 +514,7 @@ Definition judge_log (c : sccase) : list Z :=
   let r := if degenerate then FL_fail else log_search o e false in
   let rn := if degenerate then FL_fail else log_search no e true in
   let found := match rn with FL_ok _ => true | _ => false end in
+  let rep := log_nice_rep_b base e rn in
   let '(f0, l0) := log_first_last e true 0 in
   let uses_minor := match r with FL_ok l => (l <=? 0)%Z | _ => false end in
   let mamb := if uses_minor || existsb (fun lv => (lv_level lv <? 0)%Z) (so_levels ob)
@@ -545,13 +567,13 @@ Definition judge_log (c : sccase) : list Z :=
       let bl := (1 <=? g30)%Z || (1 <=? g36)%Z || (1 <=? g37)%Z in
       let g40 := law ((nomax <? 3)%Z ||
                       ((so_nst2 ob =? 0)%Z && xwithin (tolv ao) (XFin ao) (so_nmin2 ob) && xwithin (tolv bo) (XFin bo) (so_nmax2 ob))) bl in
-      let g41 := law ((nomax <? 3)%Z || negb found ||
+      let g41 := law ((nomax <? 3)%Z || negb rep ||
                       match first_last (so_major3 ob) with
                       | Some (f, l) => xwithin (tolv ao) (XFin ao) f && xwithin (tolv bo) (XFin bo) l
                       | None => false
                       end) bl in
       let g43 := law (Qeqb ao bo || (xwithin e12 (XFin 0) (so_map0 ob) && xwithin e12 (XFin 1) (so_map1 ob))) false in
-      let g45 := law ((nomax <? 3)%Z || negb found || log_law45 neg emin emax emin3 emax3 (so_major3 ob)) bl in
+      let g45 := law ((nomax <? 3)%Z || negb rep || log_law45 neg emin emax emin3 emax3 (so_major3 ob)) bl in
       conclude tag [(g10, 10%Z); (g20, 20%Z); (g21, 21%Z); (g30, 30%Z); (g35, 35%Z); (g36, 36%Z); (g37, 37%Z);
                     (g40, 40%Z); (g41, 41%Z); (g43, 43%Z); (g45, 45%Z)]
   | _, _ => conclude tag [(2%Z, 42%Z)]
